@@ -97,6 +97,11 @@ func selfTest() (problems []string, fired int) {
 	ruleP5(c)
 	ruleL1(c, "L1", 0)
 	rulePF(c, "PF", 0)
+	ruleP8(c, "P8", 0)
+	ruleB1(c, "B1", 0)
+	ruleF1(c, "F1", 0)
+	ruleF2(c, "F2")
+	ruleK1w(c, "K1w", 0)
 	// json
 	ruleJ124(c)
 	// map order
@@ -125,12 +130,12 @@ func selfTest() (problems []string, fired int) {
 		{"O1", "cmp"}, {"O2", "cmp"}, {"O3", "sort.Slice"},
 		{"P1", "DynamicRegex"}, {"P1", "ExplicitPanic"}, {"P1", "cmp/panic"},
 		{"P4", "UnguardedIndex/s:index const 0"}, {"P4", "UnguardedIndex/s:index len-1"},
-		{"P5", "Divide"}, {"P5", "Repeat"}, {"L1", "StaleLength"}, {"P4v", "VarIndexUnbounded"}, {"P4v", "VarIndexOtherLen"}, {"PF", "DropsPrefs"},
+		{"P5", "Divide"}, {"P5", "Repeat"}, {"L1", "StaleLength"}, {"P4v", "VarIndexUnbounded"}, {"P4v", "VarIndexOtherLen"}, {"PF", "DropsPrefs"}, {"P8", "UsesResultOnLetThroughError"}, {"B1", "LeaksLevel"}, {"F1", "FormatsData"}, {"F2", "BytesAsRunes"}, {"K1w", "AdoptsChildren"},
 		{"J1", "EscapesHTML"}, {"J2", "LossyNumber"}, {"J4", "IntoMap"},
 		{"G5", "MapOrder"},
 		{"X1", "MutatesInput"}, {"G1", "WritesGlobal"},
 	}
-	mustNot := []selfExpect{{"P4v", "VarIndexRange"}, {"PF", "ForwardsPrefs"}, {"L1", "FreshLength"}, {"X1", "MutatesCopy"}, {"P4", "GuardedIndex"}, {"X1", "CandidateNode.Copy"}}
+	mustNot := []selfExpect{{"P8", "UsesResultAfterFullCheck"}, {"B1", "KeepsLevel"}, {"F2", "RunesAsRunes"}, {"K1w", "FiltersOwnChildren"}, {"P4v", "VarIndexRange"}, {"PF", "ForwardsPrefs"}, {"L1", "FreshLength"}, {"X1", "MutatesCopy"}, {"P4", "GuardedIndex"}, {"X1", "CandidateNode.Copy"}}
 	have := map[string][]string{}
 	for _, o := range r.obligs {
 		if o.Verdict == "finding" {
